@@ -1,6 +1,6 @@
 """C01 - store operations are linearizable w.r.t. the sequential resource-store spec."""
 import json, os, re
-import vlib
+import vlib, inmemlib
 
 
 def run(ctx):
@@ -19,7 +19,10 @@ def run(ctx):
     ctx.sample({"behaviour": behs[0][:6]})
     binary = vlib.go_build_test(ctx, "c01")
     seq = os.path.join(ctx.scratch, "seq.ndjson")
-    vlib.go_run(ctx, binary, "TestSeq", {"VERIF_IN": inp, "VERIF_OUT": seq}, timeout=1500)
+    henv, hdir = inmemlib.traced(ctx, "seq")
+    vlib.go_run(ctx, binary, "TestSeq", dict({"VERIF_IN": inp, "VERIF_OUT": seq}, **henv), timeout=1500)
+    # S3h: the same executions seen from inside: linearization-point traces of every in-memory collection (TraceInmem)
+    inmemlib.judge_driver(ctx, "C01", hdir, "TestSeq", max_collections=400 if quick else 4000)
     recs = vlib.read_ndjson(seq)
     traces = vlib.split_traces(recs)
     ctx.sample({"trace_line": recs[1]})
@@ -58,8 +61,11 @@ def run(ctx):
     cin = os.path.join(ctx.scratch, "cbehs.json")
     json.dump(cbehs, open(cin, "w"))
     conc = os.path.join(ctx.scratch, "conc.ndjson")
-    vlib.go_run(ctx, binary, "TestConc", {"VERIF_IN": cin, "VERIF_OUT": conc, "VERIF_CLIENTS": 3 if quick else 4},
+    henv, hdir = inmemlib.traced(ctx, "conc")
+    vlib.go_run(ctx, binary, "TestConc", dict({"VERIF_IN": cin, "VERIF_OUT": conc, "VERIF_CLIENTS": 3 if quick else 4}, **henv),
                 timeout=1500)
+    # real-thread histories judged at their linearization points: no search, the lock order is the trace order
+    inmemlib.judge_driver(ctx, "C01", hdir, "TestConc")
     if not quick:
         vlib.race_stage(ctx, "c01", "TestConc", {"VERIF_IN": cin, "VERIF_OUT": conc, "VERIF_CLIENTS": 4})
     ctraces = vlib.split_traces(vlib.read_ndjson(conc))
@@ -91,9 +97,12 @@ def run(ctx):
                 raise vlib.Infra("binding self-test: corrupted trace was accepted")
     first_access(ctx, quick)
     filter_stage(ctx, quick, behs)
+    # S3r: the repository's own test suites, run with the hooks on; every critical section they cause is judged
+    inmemlib.stage(ctx, "C01", ctx.tier)
     ctx.assumptions += [
         "real-thread histories sample schedules; they do not enumerate interleavings inside the collection mutex",
         "creation-time classes are compared in the sequential replay only",
+        "hook traces (TraceInmem) cover the in-memory collection only; the other stacks are judged from the outside (TraceStore)",
         "the runtime's cached wrapper is excluded (eventual consistency is C15's subject)",
     ]
 
